@@ -41,6 +41,7 @@ enum Val
   V_STR0,
   V_STR1,
   V_STR40,
+  V_STRNUL,  // a string with an embedded '\0': size() bytes travel, not strlen()
   V_CSTR,
   V_VINT0,
   V_VINT3,
@@ -56,11 +57,11 @@ enum Val
   NVAL
 };
 
-static const char *VNAME[NVAL] = {"int8", "int32", "double", "Pod{int,float,char}", "string\"\"", "string\"a\"", "string(40)", "const char*\"xyz\"", "vector<int>{}", "vector<int>{1,2,3}",
+static const char *VNAME[NVAL] = {"int8", "int32", "double", "Pod{int,float,char}", "string\"\"", "string\"a\"", "string(40)", "string\"a\\0b\"", "const char*\"xyz\"", "vector<int>{}", "vector<int>{1,2,3}",
     "vector<string>{\"\",\"xy\"}", "vector<const char*>{\"\",\"pq\"}", "vector<vector<int>>{{},{1},{2,3}}", "(const AbstractArray<int>&)OwnedArray<int>{4}", "OwnedArray<int>{4}", "OwnedArray<int>{}", "FixedArray<uint8_t>{3}",
     "ArrayView<double>{2}", "FixedArrayView<uint8_t>{2 of 3}"};
 // class of the value for signatures
-static const char *VCLS[NVAL] = {"POD", "POD", "POD", "POD", "std::string", "std::string", "std::string", "const char*", "std::vector", "std::vector", "std::vector<std::string>", "std::vector<const char*>", "nested std::vector",
+static const char *VCLS[NVAL] = {"POD", "POD", "POD", "POD", "std::string", "std::string", "std::string", "std::string with an embedded NUL", "const char*", "std::vector", "std::vector", "std::vector<std::string>", "std::vector<const char*>", "nested std::vector",
     "AbstractArray& (base reference)", "OwnedArray", "OwnedArray", "FixedArray", "ArrayView", "FixedArrayView"};
 
 // the values, built once
@@ -70,7 +71,7 @@ struct Values
   int32_t i32 = 0x12345678;
   double f64 = -2.5e100;
   Pod pod;
-  std::string s0, s1 = "a", s40 = LONG40;
+  std::string s0, s1 = "a", s40 = LONG40, snul = std::string("a\0b", 3);
   std::vector<int> vi0, vi3;
   std::vector<std::string> vs;
   std::vector<const char *> vcs;
@@ -114,6 +115,7 @@ static void write_value(WriteStream &w, int v)
   case V_STR0: w << V.s0; break;
   case V_STR1: w << V.s1; break;
   case V_STR40: w << V.s40; break;
+  case V_STRNUL: w << V.snul; break;
   case V_CSTR: w << "xyz"; break;
   case V_VINT0: w << V.vi0; break;
   case V_VINT3: w << V.vi3; break;
@@ -175,10 +177,11 @@ static std::string read_value(BufferReader &r, int v)
   case V_STR0:
   case V_STR1:
   case V_STR40:
+  case V_STRNUL:
   case V_CSTR: {
     std::string x = "junk";
     r >> x;
-    const std::string &want = v == V_STR0 ? V.s0 : v == V_STR1 ? V.s1 : v == V_STR40 ? V.s40 : std::string("xyz");
+    const std::string want = v == V_STR0 ? V.s0 : v == V_STR1 ? V.s1 : v == V_STR40 ? V.s40 : v == V_STRNUL ? V.snul : std::string("xyz");
     return x == want ? "" : "string read back as '" + x + "' want '" + want + "'";
   }
   case V_VINT0:
